@@ -399,33 +399,35 @@ class SymInt:
             raise ZeroDivisionError('integer division or modulo by zero')
         s._ob(z3.Not(z3.And(a == bvval(-(1 << (W - 1))), b == bvval(-1))))
 
+    @staticmethod
+    def _fdm(a, b):
+        """(a // b, a % b) with Python floor semantics; the common non-negative case uses the unsigned operators."""
+        tmp = SymInt(a)
+        tmp._divcommon(a, b)
+        if SymBool(z3.And(a >= 0, b > 0)):
+            return SymInt(z3.UDiv(a, b)), SymInt(z3.URem(a, b))
+        q, r = SymInt._floordivmod(a, b)
+        return SymInt(q), SymInt(r)
+
     def __floordiv__(s, o):
         if not _liftable(o):
             return NotImplemented
-        b = Z(o)
-        s._divcommon(s.e, b)
-        return SymInt(SymInt._floordivmod(s.e, b)[0])
+        return SymInt._fdm(s.e, Z(o))[0]
 
     def __rfloordiv__(s, o):
         if not _liftable(o):
             return NotImplemented
-        a = Z(o)
-        s._divcommon(a, s.e)
-        return SymInt(SymInt._floordivmod(a, s.e)[0])
+        return SymInt._fdm(Z(o), s.e)[0]
 
     def __mod__(s, o):
         if not _liftable(o):
             return NotImplemented
-        b = Z(o)
-        s._divcommon(s.e, b)
-        return SymInt(SymInt._floordivmod(s.e, b)[1])
+        return SymInt._fdm(s.e, Z(o))[1]
 
     def __rmod__(s, o):
         if not _liftable(o):
             return NotImplemented
-        a = Z(o)
-        s._divcommon(a, s.e)
-        return SymInt(SymInt._floordivmod(a, s.e)[1])
+        return SymInt._fdm(Z(o), s.e)[1]
 
     def __divmod__(s, o):
         return (s // o, s % o)
